@@ -84,9 +84,11 @@ def _worker(args):
         return {'id': m['id'], 'status': 'error', 'detail': '%s %s' % (e, traceback.format_exc()[-800:])}
 
 
-def run_all(prop=None, only=None, jobs=4):
+def run_all(prop=None, only=None, jobs=4, own_only=False):
     muts = json.load(open(MUT))['mutants']
-    if prop:
+    if prop and own_only:
+        muts = [m for m in muts if m['property'] == prop]
+    elif prop:
         muts = [m for m in muts if m['property'] == prop or prop in m.get('also', [])]
     if only:
         muts = [m for m in muts if m['id'] in only]
